@@ -90,12 +90,16 @@ def hostOf (H : Hier) (p : Pair) : Option Comp :=
   else if wp = rp then some wp
   else none
 
+/-! `…Of` versions take the list of filed pairs as an argument (the driver computes it once); the plain versions are these
+applied to `treeEdges H nb`. -/
+
 /-- `gen_connections` raises -/
-def typeErr (H : Hier) (nb : Sig → List Sig) : Bool := (treeEdges H nb).any (fun e => (hostOf H e).isNone)
+def typeErrOf (H : Hier) (T : List Pair) : Bool := T.any (fun e => (hostOf H e).isNone)
+def typeErr (H : Hier) (nb : Sig → List Sig) : Bool := typeErrOf H (treeEdges H nb)
 
 /-- `_inst_conns[c]` -/
-def filed (H : Hier) (nb : Sig → List Sig) (c : Comp) : List Pair :=
-  (treeEdges H nb).filter (fun e => hostOf H e == some c)
+def filedOf (H : Hier) (T : List Pair) (c : Comp) : List Pair := T.filter (fun e => hostOf H e == some c)
+def filed (H : Hier) (nb : Sig → List Sig) (c : Comp) : List Pair := filedOf H (treeEdges H nb) c
 
 /-- `x` if it is in the set, else the swapped pair if that is, else the assertion fails -/
 def orient (F : List Pair) (x : Pair) : Option Pair :=
@@ -113,21 +117,24 @@ def emitFrom (F : List Pair) : List Pair → Except Err (List Pair)
       | .ok ys => .ok (y :: ys)
 
 /-- the `connections` metadata of component `c` (writer side first), or the error -/
-def emit (H : Hier) (nb : Sig → List Sig) (c : Comp) : Except Err (List Pair) :=
-  emitFrom (filed H nb c) (H.connectOrder c)
+def emitOf (H : Hier) (T : List Pair) (c : Comp) : Except Err (List Pair) := emitFrom (filedOf H T c) (H.connectOrder c)
+def emit (H : Hier) (nb : Sig → List Sig) (c : Comp) : Except Err (List Pair) := emitOf H (treeEdges H nb) c
 
 /-- every statement with its orientation, tagged with the module it is emitted in, in statement order; the assigns of
-component `c` are the `c`-tagged ones, in this order (`Proofs/SConn.lean: emit_eq_assigns`) -/
-def assigns (H : Hier) (nb : Sig → List Sig) : List (Comp × Pair) :=
-  H.stmts.filterMap (fun s => (orient (filed H nb s.1) s.2).map (fun y => (s.1, y)))
+component `c` are the `c`-tagged ones, in this order (`Proofs/SConnEmit.lean: emit_eq_assigns`) -/
+def assignsOf (H : Hier) (T : List Pair) : List (Comp × Pair) :=
+  H.stmts.filterMap (fun s => (orient (filedOf H T s.1) s.2).map (fun y => (s.1, y)))
+def assigns (H : Hier) (nb : Sig → List Sig) : List (Comp × Pair) := assignsOf H (treeEdges H nb)
 
 /-- the translator goes through: no `TypeError`, no component with an unfiled statement -/
-def accepted (H : Hier) (nb : Sig → List Sig) : Bool :=
-  !typeErr H nb && H.stmts.all (fun s => (orient (filed H nb s.1) s.2).isSome)
+def acceptedOf (H : Hier) (T : List Pair) : Bool :=
+  !typeErrOf H T && H.stmts.all (fun s => (orient (filedOf H T s.1) s.2).isSome)
+def accepted (H : Hier) (nb : Sig → List Sig) : Bool := acceptedOf H (treeEdges H nb)
 
 /-- what the whole translation raises first: `gen_connections` runs in the translator's constructor, before the pass -/
-def verdict (H : Hier) (nb : Sig → List Sig) : Option Err :=
-  if typeErr H nb then some .typeError else if accepted H nb then none else some .conversion
+def verdictOf (H : Hier) (T : List Pair) : Option Err :=
+  if typeErrOf H T then some .typeError else if acceptedOf H T then none else some .conversion
+def verdict (H : Hier) (nb : Sig → List Sig) : Option Err := verdictOf H (treeEdges H nb)
 
 /-! ### preconditions the driver evaluates on every request -/
 
